@@ -11,6 +11,7 @@ use vmodel::{
 
 use super::{
     common::{pick, unhex},
+    lockstep::{case_json, replay_lockstep, run_case, Case, Flags},
     declcommon::{self, Servers},
     Check, PrepError, DEFAULT,
 };
@@ -27,7 +28,7 @@ pub fn check() -> Check {
         floor_thorough: 500_000,
         rule: "Library half: a harness-side Autocomplete implementation that follows the protocol of generated code (every name starting with the request merges its continuation) reads 1-8 generated names over {g e t - a x e-acute Cyrillic-g CJK} \
                with forced shared prefixes, one name a prefix of another, any order; crossed with lines (leading/trailing blanks, one or two words, prefixes of names and of `help`), every cursor position and command buffers from len(line) to len(line)+10 bytes. \
-               Derived half: the same lines against a derived enum whose matching names are not adjacent in declaration order and a derived group with a hidden member (compiled with the repository's macros). \
+               Session half: several completions on one Cli (erase and retype, recall with Up, submit in between), each Tab judged on the line and cursor observed in front of it. Derived half: the same lines against a derived enum whose matching names are not adjacent in declaration order and a derived group with a hidden member (compiled with the repository's macros). \
                Macro half (programs): generated declarations (C09's grammar: derived and explicit names incl. multi-byte, any order, split across groups, hidden groups, catch-all member), compiled with the repository's macros, probed with prefixes of their own names. \
                Oracle: longest-common-continuation model over scalar values with a trailing space iff exactly one name matches and it fits; when a candidate does not fit the buffer any scalar-boundary prefix of the common continuation without a space is accepted; \
                always: typed non-blank text is a prefix of the result, length <= buffer, well-formed UTF-8, unchanged when nothing matches or an argument was started; the terminal emulator must show prompt + new line. \
@@ -247,7 +248,7 @@ fn case_strategy() -> impl Strategy<Value = TabCase> {
 
 fn fixed_case_strategy() -> impl Strategy<Value = TabCase> {
     let words = vec![
-        "", "g", "ge", "get", "get-", "get-l", "get-led", "get-a", "e", "ex", "exit", "s", "se", "set", "n", "net", "h", "he", "help", "э", "эх", "эхо", "go", "go-", "hel", "hell", "hello", "sec", "secret-cmd", "exe", "x", "гг", "с", "ст", "сто", "стоп", "ста", "старт",
+        "", "g", "ge", "get", "get-", "get-l", "get-led", "get-a", "e", "ex", "exit", "s", "se", "set", "n", "net", "h", "he", "help", "э", "эх", "эхо", "go", "go-", "hel", "hell", "hello", "sec", "secret-cmd", "exe", "x", "гг", "с", "ст", "сто", "стоп", "ста", "старт", "a", "at", "até",
     ];
     (
         prop_oneof![Just("enum"), Just("group")],
@@ -273,8 +274,93 @@ fn fixed_case_strategy() -> impl Strategy<Value = TabCase> {
         })
 }
 
+const SESSION_FLAGS: Flags = Flags {
+    dispatch: false,
+    editor: false,
+    screen: false,
+    framing: false,
+    flush: false,
+    help_on: true,
+    complete: true,
+};
+
+/// Several completions on one Cli: what Tab does depends on the line and the cursor in front of it, not on what was
+/// completed, typed, erased, submitted or recalled before. Rounds: erase the line and type a word (then move left) and press
+/// Tab; or recall with Up and press Tab; or submit.
+fn tab_session_strategy() -> impl Strategy<Value = Case> {
+    let words = vec![
+        "g", "ge", "get", "get-", "get-l", "get-a", "e", "ex", "exi", "exit", "s", "se", "set", "set ", "n", "ne", "net", "h", "he", "hel", "help", "э", "эх", "go", "go-", "hell", "hello", "с", "ст", "сто", "ста", "a", "at", "x", "sec",
+    ];
+    let round = (0u8..10, any::<u16>(), 0usize..2, 0usize..3, 0usize..4);
+    (
+        prop_oneof![Just("enum"), Just("group"), Just("group")],
+        prop_oneof![Just(4usize), Just(5), Just(6), Just(7), Just(8), Just(10), Just(12), Just(16), Just(32)],
+        prop_oneof![Just(0usize), Just(16), Just(48)],
+        0usize..5,
+        proptest::collection::vec(round, 1..6),
+    )
+        .prop_map(move |(set, cap, hist, prompt, rounds)| {
+            let mut ops: Vec<vmodel::session::Op> = Vec::new();
+            use vmodel::session::Op;
+            for (i, (kind, w, lead, trail, lefts)) in rounds.into_iter().enumerate() {
+                match kind {
+                    0 if i > 0 => {
+                        ops.push(Op::Up);
+                        ops.push(Op::Tab);
+                    }
+                    1 if i > 0 => ops.push(Op::Enter),
+                    _ => {
+                        if i > 0 {
+                            // erase whatever the line holds
+                            for _ in 0..12 {
+                                ops.push(Op::Right);
+                            }
+                            for _ in 0..24 {
+                                ops.push(Op::Backspace);
+                            }
+                        }
+                        ops.push(Op::Text(format!("{}{}{}", " ".repeat(lead), pick(&words, w), " ".repeat(trail))));
+                        for _ in 0..lefts {
+                            ops.push(Op::Left);
+                        }
+                        ops.push(Op::Tab);
+                    }
+                }
+            }
+            Case {
+                cfg: vmodel::session::Config {
+                    cmd_buf: cap,
+                    hist_buf: hist,
+                    prompt,
+                    set: set.to_string(),
+                    ..Default::default()
+                },
+                ops,
+            }
+        })
+}
+
 fn run_shard(ctx: &ShardCtx) {
     run_macro_half(ctx);
+    ctx.run_prop("tab-session", ctx.tier.pick(400_000, 4_000_000), tab_session_strategy(), case_json, |c| match run_case(c, SESSION_FLAGS) {
+        Ok(stats) => {
+            for _ in 0..stats.skipped_unspecified {
+                ctx.skipped();
+            }
+            let mut any = false;
+            for (p, fp, sample) in stats.nontrivial {
+                if p == "C11" {
+                    any = true;
+                    ctx.nontrivial(fp, || sample.unwrap_or_else(|| case_json(c)));
+                }
+            }
+            if any {
+                ctx.class("sessions with several completions on one Cli");
+            }
+            Ok(())
+        }
+        Err((e, o)) => Err(Failure::new("tab-session", Value::Null, e, o)),
+    });
     for (sub, total, fixed) in [("tab-derived", ctx.tier.pick(1_000_000u64, 6_000_000u64), true), ("tab-library", ctx.tier.pick(3_000_000, 25_000_000), false)] {
         let f = |c: &TabCase| match run_any(c) {
             Ok((nt, open)) => {
@@ -374,6 +460,9 @@ fn run_macro_half(ctx: &ShardCtx) {
 }
 
 fn replay(sub: &str, case: &Value) -> Verdict {
+    if sub == "tab-session" {
+        return replay_lockstep(sub, case, SESSION_FLAGS);
+    }
     if sub == "tab-macro" {
         let fail = |e: String, o: String| Failure::new(sub, case.clone(), e, o);
         let d: vmodel::decl::Decl = serde_json::from_value(case["decl"].clone()).map_err(|e| fail("a declaration model in the replay file".into(), e.to_string()))?;
